@@ -215,6 +215,20 @@ def judge_c06(case, o, r):
         fd_ok = all(abs(o["popt"][k]) * jn[k] >= 1e-4 * yn for k in range(m))
         if not fd_ok:
             PARTIAL["covariance-not-judged:parameter-near-zero"] += 1
+        # The mirror image: a parameter FAR from zero on the scale on which the model varies with
+        # it (a peak position 1e4 widths away from 0).  MINPACK's step 1.5e-8*|p_k| is then not
+        # small against that scale; column k of scipy's forward-difference Jacobian carries the
+        # relative truncation error delta_k = |f(p+h) - 2f(p) + f(p-h)| / |f(p+h) - f(p-h)|
+        # (measured here with the documented closed form of the model, in the metric 1/s_i), and
+        # (J^T W J)^-1 inherits about 2*sqrt(kappa)*delta of it.  Where that alone uses up a third
+        # of the tolerance the covariance clause says nothing about qexpy: not judged (counted).
+        if fd_ok and not fails:
+            coarse = fd_coarseness(case, o["popt"], r)
+            _margin("non-poly 2*sqrt(kappa)*delta of scipy's forward-difference Jacobian",
+                    min(coarse * 2 * math.sqrt(kappa), 1.0))
+            if not coarse * 2 * math.sqrt(kappa) <= 0.3 * NL_COV_REL:
+                fd_ok = False
+                PARTIAL["covariance-not-judged:scipy-forward-difference-step-too-coarse"] += 1
         if not fails and fd_ok:
             for i in range(m):
                 for j in range(m):
@@ -231,6 +245,35 @@ def judge_c06(case, o, r):
                     break
     # the reported uncertainties are the square roots of the diagonal
     return fails, False
+
+
+def fd_coarseness(case, popt, r):
+    """largest relative truncation error of a column of the forward-difference Jacobian that
+    scipy.optimize.curve_fit (MINPACK, step sqrt(eps)*|p_k|) builds at popt; inf when it cannot be
+    evaluated"""
+    try:
+        f = G.ref_fn(case)
+        sel = r["sel"]
+        xs = [case["x"][i] for i in sel]
+        sw = [1.0 / (fb(v)[0] or 1.0) for v in r["s"]]
+        if len(sw) != len(xs):
+            sw = [1.0] * len(xs)
+        worst = 0.0
+        for k, pk in enumerate(popt):
+            h = 1.4901161193847656e-08 * (abs(pk) or 1.0)
+            up, dn = list(popt), list(popt)
+            up[k], dn[k] = pk + h, pk - h
+            a = [f(x, *up) for x in xs]
+            b = [f(x, *popt) for x in xs]
+            c = [f(x, *dn) for x in xs]
+            num = math.sqrt(sum(((ai - 2 * bi + ci) * w) ** 2 for ai, bi, ci, w in zip(a, b, c, sw)))
+            den = math.sqrt(sum(((ai - ci) * w) ** 2 for ai, ci, w in zip(a, c, sw)))
+            if not den > 0:
+                return float("inf")
+            worst = max(worst, num / den)
+        return worst
+    except (OverflowError, ZeroDivisionError, ValueError, KeyError, TypeError):
+        return float("inf")
 
 
 def run_c06(ctx, cases, ref=False):
